@@ -408,7 +408,10 @@ pub mod proofs {
     /// TreeRef with K entries (names of length L, every u16 mode): bytes written == size(), and the
     /// bytes are `<octal mode> SP name NUL <20 id bytes>` per entry.
     pub fn tree_ref_size<const K: usize, const L: usize>() {
-        let names: [[u8; L]; K] = kani::any();
+        // two separate buffers: Kani 0.68 mis-models slices of rows >= 1 of a nested `[[u8; L]; K]`
+        let n0: [u8; L] = kani::any();
+        let n1: [u8; L] = kani::any();
+        let names: [&[u8; L]; 2] = [&n0, &n1];
         let modes: [u16; K] = kani::any();
         let id = ObjectId::from(kani::any::<[u8; 20]>());
         let mut entries = Vec::with_capacity(K);
